@@ -132,7 +132,9 @@ def gen_cloud(rng, stream, kmin=0):
             pts[rng.randrange(k)] = list(pts[rng.randrange(k)])  # a repeated point
         return pts
     s = mag(rng)
-    centre = gens.fvec(rng, s * 10.0 ** rng.uniform(-3, 3))
+    # centre up to 1e3 spreads away; one cloud in six is *far* from the origin (1e5..1e8 spreads), where a formula that
+    # subtracts squared norms instead of coordinates would cancel catastrophically
+    centre = gens.fvec(rng, s * 10.0 ** (rng.uniform(5, 8) if rng.random() < 1 / 6 else rng.uniform(-3, 3)))
     return [[c + x for c, x in zip(centre, gens.fvec(rng, s))] for _ in range(k)]
 
 
@@ -572,11 +574,13 @@ def oracle_cloud(spec, P, scale):
             out.append(("extent/indices-valid", "indices (%d, %d) for %d points" % (i, j, k)))
         else:
             dij = sum((x - y) ** 2 for x, y in zip(Q[i], Q[j]))
-            tie = Fraction(0) if spec["stream"] == "lattice" else Fraction(1e-12) * best
+            # differences of coordinates carry an absolute rounding error of a few ulp of the coordinates' magnitude
+            rel = 1e-12 + 64 * 2.0 ** -52 * scale / max(math.sqrt(float(best)), 1e-300) if best > 0 else 0.0
+            tie = Fraction(0) if spec["stream"] == "lattice" else Fraction(rel) * best
             if dij < best - tie:
                 out.append(("extent/pair-attains-max", "returned pair (%d,%d) at squared distance %r, the farthest pair is at %r" % (
                     i, j, float(dij), float(best))))
-        tol = 1e-9 * max(scale, math.sqrt(float(best)))
+        tol = 1e-9 * math.sqrt(float(best)) + 64 * 2.0 ** -52 * scale
         if abs(float(d) - math.sqrt(float(best))) > tol:
             out.append(("extent/distance-is-max", "returned distance %r, the largest pairwise distance is %r" % (float(d), math.sqrt(float(best)))))
         if float(d_only) != float(d):
